@@ -22,9 +22,21 @@ def main(argv):
     o.add_argument("seed", type=int)
     o.add_argument("tier", nargs="?", default="quick")
     o.add_argument("--scenario", action="store_true")
+    ds = sub.add_parser("digests")
+    ds.add_argument("family")
+    ds.add_argument("lo", type=int)
+    ds.add_argument("hi", type=int)
+    ds.add_argument("workers", type=int)
     s = sub.add_parser("selftest")
     s.add_argument("--seeds", type=int, default=64)
     s.add_argument("--families", default=None)
+    sv = sub.add_parser("sensitivity")
+    sv.add_argument("ids", nargs="*")
+    sv.add_argument("--tests", action="store_true")
+    sv.add_argument("--write-patches", action="store_true")
+    sv.add_argument("--patch", default=None)
+    sv.add_argument("--prop", default=None)
+    sv.add_argument("--tier", default="quick")
     a = ap.parse_args(argv)
 
     from dsim import runner
@@ -52,6 +64,19 @@ def main(argv):
             print(json.dumps(scn, indent=1, default=runner._jsonable))
         print(json.dumps(res, indent=1, default=runner._jsonable))
         return 1 if res["violations"] else (2 if res.get("harness_error") else 0)
+    if a.cmd == "digests":
+        from dsim.selftest import digests_main
+
+        return digests_main(a.family, a.lo, a.hi, a.workers)
+    if a.cmd == "sensitivity":
+        from dsim import mutants
+
+        if a.write_patches:
+            mutants.write_patches()
+            return 0
+        if a.patch:
+            return mutants.eval_patch(a.patch, a.prop, a.tier)
+        return mutants.sensitivity(a.ids or None, a.tests)
     if a.cmd == "selftest":
         from dsim.selftest import selftest
 
